@@ -316,6 +316,9 @@ func (hs *serverHandshakeStateGM) checkForResumption() bool {
 	if sessionHasClientCerts && c.config.ClientAuth == NoClientCert {
 		return false
 	}
+	if sessionHasClientCerts && !c.sessionCertsVerify(hs.sessionState.certificates) {
+		return false
+	}
 
 	return true
 }
